@@ -312,6 +312,10 @@ func genCase(r *vrun.Run, idx int) caseSpec {
 	c.DstName = rootName(rng, "D")
 	c.ArcDir = rootName(rng, "A")
 	c.ArcName = rootName(rng, "Z")
+	if strings.HasPrefix(c.EP, "Zip") && len(names) > 0 && rng.IntN(3) == 0 {
+		// the archive (written outside the tree) carries the name of an entry of the tree
+		c.ArcName = names[rng.IntN(len(names))]
+	}
 	c.Patterns = []string{}
 	if rng.IntN(8) == 0 {
 		// invalid pattern set: one (sometimes two) invalid patterns mixed with 0..2 valid ones
